@@ -128,7 +128,9 @@ ReadPoint(o, cur) ==
        ELSE IF ~(BytesLtP(o.ax) /\ BytesLtP(o.ay)) THEN [st |-> "cert", p |-> Junk, why |-> "no affine certificate"]
        ELSE LET ax == OS2IPW(o.ax)  ay == OS2IPW(o.ay) IN
             IF ~(PMul(ax, Z) = X /\ PMul(ay, Z) = Y) THEN [st |-> "cert", p |-> Junk, why |-> "affine certificate does not fit the stored coordinates"]
-            ELSE IF ~C!OnCurve(C!Pt(ax, ay)) THEN [st |-> "invalid", p |-> Junk, why |-> "the stored coordinates are not those of a curve point"]
+            \* stored coordinates that are not those of any curve point under this reading: the reading does not apply
+            \* (the harness tests it on known values when it starts; this is the same caution per element) -- Encode decides
+            ELSE IF ~C!OnCurve(C!Pt(ax, ay)) THEN viaEnc
             ELSE [st |-> IF o.id THEN "isidentity-observer" ELSE "element-encode-observer", p |-> C!Pt(ax, ay), why |-> "stored coordinates"]
 
 ObsE == Conc([v \in 1..NEv |-> ReadPoint(Ev.obs.E[v], E[v])])
